@@ -198,6 +198,7 @@ EvResult(ev) ==
       [] ev = "e_tup2" -> [k |-> "tuple", v |-> <<"v1", "v2">>]
       [] ev = "e_bin"  -> [k |-> "one",   v |-> <<"b1">>]
       [] ev = "e_tbin" -> [k |-> "tuple", v |-> <<"v1", "b1">>]
+      [] ev = "e_ddb"  -> [k |-> "one",   v |-> <<"ddb1">>]    \* byte strings two levels down
       [] ev = "e_f"    -> [k |-> "one",   v |-> <<"f1">>]     \* falsy but meaningful results
       [] ev = "e_es"   -> [k |-> "one",   v |-> <<"es">>]
       [] ev = "e_el"   -> [k |-> "one",   v |-> <<"el">>]
@@ -206,7 +207,7 @@ EvResult(ev) ==
       [] ev = "e_raise"-> [k |-> "raise", v |-> <<>>]
       [] OTHER         -> [k |-> "unh",   v |-> <<>>]
 
-BinaryTok(x) == x \in {"b1", "b2", "db1"}
+BinaryTok(x) == x \in {"b1", "b2", "db1", "ddb1"}
 HasBinary(q) == \E i \in 1..Len(q) : BinaryTok(q[i])
 
 (* a handler invocation; `pre` = how many packets this step had already     *)
